@@ -170,6 +170,49 @@ def toRotvecG (T : TrigOps K) (q : Q K) : V3 K :=
   ⟨sc * q.a, sc * q.b, sc * q.c⟩
 end RotvecG
 
+section ToEulerG
+variable {K : Type} [Add K] [Sub K] [Mul K] [Div K] [Neg K] [OfNat K 0] [OfNat K 1] [OfNat K 2]
+  [LT K] [DecidableLT K] [LE K] [DecidableLE K]
+
+/-- component `i` of a quaternion in storage order (`3` = scalar part) -/
+def qgetG (q : Q K) (i : Nat) : K := if i = 0 then q.a else if i = 1 then q.b else if i = 2 then q.c else q.w
+
+/-- `_quaternion_to_euler` (Bernardes–Viollet) over any scalar type, `seq` given as storage indices,
+lower-case semantics. The transcendental functions come from `T`, `ofInt` is the cast of the integer sign
+product, `eps` the gimbal-lock threshold (`1e-7` in the code); `hypot x y` is `sqrt (x*x + y*y)` and `|x| ≤ eps`
+is tested on `if x < 0 then -x else x`. `F.toEuler` is this function at `F.floatTrig`, `Float.ofInt`, `1e-7`. -/
+def toEulerG (T : TrigOps K) (ofInt : Int → K) (eps : K) (quat : Q K) (seq : List Nat) (extrinsic : Bool) :
+    List K :=
+  let hypot := fun (x y : K) => T.sqrt (x * x + y * y)
+  let abs := fun (x : K) => if x < 0 then -x else x
+  let seq := if extrinsic then seq else seq.reverse
+  let q := seq.getD 0 0; let r := seq.getD 1 0; let s0 := seq.getD 2 0
+  let symmetric := q == s0
+  let s := if symmetric then 3 - q - r else s0
+  let sign : K := (ofInt (((q : Int) - r) * ((r : Int) - s) * ((s : Int) - q))) / 2
+  let a := if symmetric then qgetG quat 3 else qgetG quat 3 - qgetG quat r
+  let b := if symmetric then qgetG quat q else qgetG quat q + qgetG quat s * sign
+  let c := if symmetric then qgetG quat r else qgetG quat r + qgetG quat 3
+  let d := if symmetric then qgetG quat s * sign else qgetG quat s * sign - qgetG quat q
+  let angles1 := 2 * T.atan2 (hypot c d) (hypot a b)
+  let halfSum := T.atan2 b a
+  let halfDiff := T.atan2 d c
+  -- the singularity test uses the second angle *before* it is shifted for non-symmetric sequences
+  let case1 : Bool := decide (abs angles1 ≤ eps)
+  let case2 : Bool := decide (abs (angles1 - T.pi) ≤ eps)
+  let angles0 := halfSum - halfDiff
+  let angles2 := halfSum + halfDiff
+  let angles0' := if extrinsic then angles0 else angles2
+  let angles2' := if extrinsic then angles2 else angles0
+  let angles2 := if !case1 && !case2 then angles2' else 0
+  let angles0 := if case1 then 2 * halfSum else if case2 then 2 * halfDiff * (if extrinsic then -1 else 1) else angles0'
+  let angles2 := if !symmetric && extrinsic then angles2 * sign else angles2
+  let angles0 := if !symmetric && !extrinsic then angles0 * sign else angles0
+  let angles1 := if symmetric then angles1 else angles1 - T.pi / 2
+  let wrap := fun (t : K) => let t := if t < -T.pi then t + 2 * T.pi else t; if t > T.pi then t - 2 * T.pi else t
+  [wrap angles0, wrap angles1, wrap angles2]
+end ToEulerG
+
 /-! ### conversions over `Float` -/
 namespace F
 
@@ -198,30 +241,7 @@ def qget (q : Q Float) (i : Nat) : Float := if i = 0 then q.a else if i = 1 then
 
 /-- `_quaternion_to_euler` (Bernardes–Viollet), `seq` given as storage indices, lower-case semantics -/
 def toEuler (quat : Q Float) (seq : List Nat) (extrinsic : Bool) : List Float :=
-  let seq := if extrinsic then seq else seq.reverse
-  let q := seq.getD 0 0; let r := seq.getD 1 0; let s0 := seq.getD 2 0
-  let symmetric := q == s0
-  let s := if symmetric then 3 - q - r else s0
-  let sign : Float := (Float.ofInt (((q : Int) - r) * ((r : Int) - s) * ((s : Int) - q))) / 2
-  let (a, b, c, d) :=
-    if symmetric then (qget quat 3, qget quat q, qget quat r, qget quat s * sign)
-    else (qget quat 3 - qget quat r, qget quat q + qget quat s * sign, qget quat r + qget quat 3, qget quat s * sign - qget quat q)
-  let angles1 := 2 * Float.atan2 (hypot c d) (hypot a b)
-  let halfSum := Float.atan2 b a
-  let halfDiff := Float.atan2 d c
-  -- the singularity test uses the second angle *before* it is shifted for non-symmetric sequences
-  let case1 := Float.abs angles1 ≤ 1e-7
-  let case2 := Float.abs (angles1 - pi) ≤ 1e-7
-  let angles0 := halfSum - halfDiff
-  let angles2 := halfSum + halfDiff
-  let (angles0, angles2) := if extrinsic then (angles0, angles2) else (angles2, angles0)
-  let angles2 := if !case1 && !case2 then angles2 else 0
-  let angles0 := if case1 then 2 * halfSum else if case2 then 2 * halfDiff * (if extrinsic then -1 else 1) else angles0
-  let angles2 := if !symmetric && extrinsic then angles2 * sign else angles2
-  let angles0 := if !symmetric && !extrinsic then angles0 * sign else angles0
-  let angles1 := if symmetric then angles1 else angles1 - pi / 2
-  let wrap := fun (t : Float) => let t := if t < -pi then t + 2 * pi else t; if t > pi then t - 2 * pi else t
-  [wrap angles0, wrap angles1, wrap angles2]
+  toEulerG floatTrig Float.ofInt 1e-7 quat seq extrinsic
 
 /-- `_matrix_to_quaternion` -/
 def matrixToQuat (m : Mat3 Float) : Q Float := matrixToQuatG Float.sqrt m
